@@ -129,7 +129,22 @@ impl Exes {
 fn print_case(ex: &Exes, bytes: &[u8], bounds: &[i64]) -> CaseResult {
     let mut c = Chooser::new(bytes);
     let n = 1 + c.choose(40);
-    let items: Vec<(bool, i64)> = (0..n).map(|_| (c.boolean(), value(&mut c, bounds))).collect();
+    let mut items: Vec<(bool, i64)> = (0..n).map(|_| (c.boolean(), value(&mut c, bounds))).collect();
+    // long runs: hundreds of values with no, rare or frequent newlines (kilobytes of output
+    // between two newlines), cycling through the drawn values and simple derivatives of them
+    let long_run = c.prob(28);
+    if long_run {
+        let total = 150 + c.choose(1500);
+        let nl_every = [0usize, 97, 13, 2][c.choose(4)];
+        let base = items.clone();
+        items = (0..total)
+            .map(|i| {
+                let v = base[i % base.len()].1;
+                let v = if i % 3 == 2 { v.wrapping_mul(31).wrapping_add(i as i64) } else { v };
+                (nl_every != 0 && i % nl_every == nl_every - 1, v)
+            })
+            .collect();
+    }
     let exe = match ex.printer_exe() {
         Ok(e) => e,
         Err(m) => return CaseResult::Discard(format!("infra: {m}")),
@@ -149,7 +164,7 @@ fn print_case(ex: &Exes, bytes: &[u8], bounds: &[i64]) -> CaseResult {
     if r.stdout != expected || r.code != Some(0) {
         // find the first offending value for the report
         let mut culprit = None;
-        for (nl, v) in &items {
+        for (nl, v) in items.iter().take(60) {
             let a = vec![format!("{}{}", if *nl { 'n' } else { 'p' }, v)];
             if let Ok(r1) = run_with_timeout(&exe, &a, Duration::from_secs(10)) {
                 let mut e1 = v.to_string().into_bytes();
@@ -176,7 +191,7 @@ fn print_case(ex: &Exes, bytes: &[u8], bounds: &[i64]) -> CaseResult {
     CaseResult::Pass {
         nontrivial: big > 0,
         hash: hash_str(&format!("{items:?}")),
-        classes: vec!["print".into()],
+        classes: if long_run { vec!["print".into(), format!("print: run of {} values", if items.len() >= 600 { ">= 600" } else { "150..599" })] } else { vec!["print".into()] },
         sample: Some(json!({"printed_values": items.iter().take(6).map(|(n, v)| json!([n, v])).collect::<Vec<_>>()})),
     }
 }
@@ -369,7 +384,7 @@ fn a64_args_case(bytes: &[u8], bounds: &[i64]) -> CaseResult {
 pub fn check(ctx: &Ctx) -> i32 {
     let start = Instant::now();
     let mut ev = Evidence::default();
-    ev.rule = "printing: io.c of the working tree linked with a tiny C main; batches of up to 40 values drawn from all boundaries (0, +-1, +-9, +-10, powers of ten +-1, powers of two +-1, MIN, MAX, every d*10^e for d = 1..9 with neighbours and with small / nine-digit / twelve-digit tails), sums of up to three terms d*10^e (zeros inside the decimal form) and random 64-bit values; oracle: Rust's decimal formatting (+ newline for the line variant). arguments/status: programs `def main(a0..ak){ println_i64(a0); ...; ai }` for k = 0..5 compiled through the real pipeline and generate_c_driver, run natively with boundary/random decimal arguments in several spellings (canonical, zero-padded `007`/`-0042`, explicit plus sign); oracle: each parameter printed unchanged and in order, status = result mod 256; with one argument too few/too many: a message, non-zero status and no program output. heap size: one allocating program linked with the C driver generated for heap sizes default, 1, 64, 1024, 2048 and 3000 MB must behave identically (if the machine can allocate that much). AArch64: the same programs for k = 0..7 on the emulator with the arguments in X1..X7. Non-trivial: |value| >= 2^31 or k >= 3; distinct by hash of the values.".into();
+    ev.rule = "printing: io.c of the working tree linked with a tiny C main; batches of up to 40 values (one case in nine: a run of 150..1650 values with no newline at all, or one every 97th, 13th, 2nd value, i.e. kilobytes of output between two newlines) drawn from all boundaries (0, +-1, +-9, +-10, powers of ten +-1, powers of two +-1, MIN, MAX, every d*10^e for d = 1..9 with neighbours and with small / nine-digit / twelve-digit tails), sums of up to three terms d*10^e (zeros inside the decimal form) and random 64-bit values; oracle: Rust's decimal formatting (+ newline for the line variant). arguments/status: programs `def main(a0..ak){ println_i64(a0); ...; ai }` for k = 0..5 compiled through the real pipeline and generate_c_driver, run natively with boundary/random decimal arguments in several spellings (canonical, zero-padded `007`/`-0042`, explicit plus sign); oracle: each parameter printed unchanged and in order, status = result mod 256; with one argument too few/too many: a message, non-zero status and no program output. heap size: one allocating program linked with the C driver generated for heap sizes default, 1, 64, 1024, 2048 and 3000 MB must behave identically (if the machine can allocate that much). AArch64: the same programs for k = 0..7 on the emulator with the arguments in X1..X7. Non-trivial: |value| >= 2^31 or k >= 3; distinct by hash of the values.".into();
     ev.assumptions = vec!["gcc and GNU as of the sandbox; AArch64 entry on the emulator only".into()];
     let bounds = boundary_values();
     let ex = Exes { tc: Toolchain::new(ctx.scratch.clone()), printer: Mutex::new(None), progs: Mutex::new(HashMap::new()) };
